@@ -179,6 +179,9 @@ Definition run_entry (t : atable) (cfg : ucfg) (s : ustate) (x : treason) (q : o
   | _ => EBad
   end.
 
+Definition eres_out (e : eres) : option (list sout) :=
+  match e with EReturned _ o | EEntered _ o => Some o | _ => None end.
+
 (* the running loops (tests and setup scripts) *)
 Definition interp_run (ra : reqarms) (t : atable) (cfg : ucfg) (s : ustate) (r : ureq) : sres :=
   match exec_acts (uenv cfg s None) (kind_arm ra r) (ck s) with
@@ -392,6 +395,12 @@ Definition unit_diffs_at (tp : ptable) (t : atable) (cfg : ucfg) (u : ustate) : 
   | _ => []
   end.
 
+(* the walk tries requests before timer, child and pipe events, so that among the shortest paths
+   one made of requests is reported when there is one *)
+Definition diag_events : list aevent :=
+  filter (fun e => match e with AReq _ => true | _ => false end) aevents ++
+  filter (fun e => match e with AReq _ => false | _ => true end) aevents.
+
 Definition pair_mem (p : N * N) (l : list (N * N * list N)) : bool :=
   existsb (fun q => (fst p =? fst (fst q)) && (snd p =? snd (fst q))) l.
 
@@ -415,7 +424,7 @@ Fixpoint find_diffs (fuel : nat) (tp : ptable) (t : atable) (work : list (astate
                                     else ((a', aevent_code e :: path) :: fst st,
                                           PositiveSet.add (code a') (snd st))
                          | Panicked => st
-                         end) aevents ([], seen) in
+                         end) diag_events ([], seen) in
           find_diffs f tp t (rest ++ rev new) seen' acc'
       end
   end.
